@@ -83,7 +83,7 @@ _ERR = [
     (re.compile(r"Error: Action property (\S+) is violated"), "property"),
     (re.compile(r"Error: Temporal properties were violated"), "liveness"),
     (re.compile(r"Error: Deadlock reached"), "deadlock"),
-    (re.compile(r"Error: The postcondition (\S+)?"), "postcondition"),
+    (re.compile(r"Error: Postcondition (\S+)"), "postcondition"),
     (re.compile(r"Error: Evaluating (?:invariant|assumption) (\S+) failed"), "evalfail"),
     (re.compile(r"Error: Assumption .* is false"), "assumption"),
     (re.compile(r"Error: The first argument of Assert evaluated to FALSE"), "assert"),
@@ -200,14 +200,16 @@ def validate_traces(trace_module, cfg, traces, workdir=None, timeout=1800, specd
         if ts:
             ti = int(ts[-1]) - 1
             rejected.setdefault(ti, (int(ls[-1]) - 1 if ls else -1, "invariant " + name))
-    m = re.search(r'<<"REJECTED", (.*)>>\s*$', out, re.M)
-    if m:
-        # parse "(1 :> <<3, [...]>> @@ 2 :> ...)" loosely: ids and line numbers
-        for mm in re.finditer(r"(\d+) :> <<(\d+),", m.group(1)):
+    mk = re.search(r'<<\s*"REJECTED"', out)
+    k = mk.start() if mk else -1
+    if k >= 0:
+        # {<<trace id, line reached, "blocking clause">>, ...} possibly wrapped over many lines
+        end = out.find("Error:", k)
+        for mm in re.finditer(r'<<(\d+),\s*(\d+),\s*"([^"]*)">>', out[k: end if end > 0 else len(out)]):
             ti = int(mm.group(1)) - 1
-            rejected.setdefault(ti, (int(mm.group(2)), "no abstract action explains event"))
+            rejected.setdefault(ti, (int(mm.group(2)), mm.group(3)))
         if not rejected:
-            raise TLCError("cannot parse REJECTED line: " + m.group(0)[:500])
+            raise TLCError("cannot parse REJECTED block: " + out[k:k + 500])
     if r.violated and not rejected:
         raise TLCError("trace validation failed without a parsable rejection:\n" + out[-3000:])
     return r, rejected
